@@ -31,6 +31,25 @@ func normalize(o *op, r obs) obs {
 	return r
 }
 
+// sharedBytes reports entropy that two consecutive default-source outputs have in common: a
+// suffix of the earlier one that is a prefix of the later one (>= 6 bytes), or a common aligned
+// 8-byte block. For independent CSPRNG outputs the probability is below 2^-44 per pair.
+func sharedBytes(prev, cur []byte) string {
+	for k := min(len(prev), len(cur)); k >= 6; k-- {
+		if bytes.Equal(prev[len(prev)-k:], cur[:k]) {
+			return fmt.Sprintf("the last %d bytes of the earlier entropy are the first %d bytes of this one", k, k)
+		}
+	}
+	for i := 0; i+8 <= len(prev); i += 4 {
+		for j := 0; j+8 <= len(cur); j += 4 {
+			if bytes.Equal(prev[i:i+8], cur[j:j+8]) {
+				return fmt.Sprintf("bytes %d..%d of the earlier entropy equal bytes %d..%d of this one", i, i+7, j, j+7)
+			}
+		}
+	}
+	return ""
+}
+
 // modelCheck compares one observation with what the properties pin down for
 // that call in isolation. It asserts nothing where the text is silent
 // (unsupported languages, combined defects, invalid UTF-8 seeds).
@@ -85,7 +104,14 @@ func modelCheck(o *op, r obs) error {
 				return failf(sig, "%s = (%q, %s %q), want a valid %d-word mnemonic", desc, string(r.Str), r.Err, string(r.ErrMsg), n)
 			}
 			seen := map[string]bool{string(r.Str): true}
+			prevEnt, _, _ := ref.Decode(rl, string(r.Str))
 			for i, m := range r.All {
+				if e, _, derr := ref.Decode(rl, m); derr == nil {
+					if why := sharedBytes(prevEnt, e); why != "" {
+						return failf(sig+" re-issued-bytes", "repetition %d of %s returned %q (entropy %x) right after %x: %s \u2014 randomness handed out twice", i+1, desc, m, e, prevEnt, why)
+					}
+					prevEnt = e
+				}
 				toks := strings.Split(m, rl.Sep())
 				idx, known := ref.TokensIndices(rl, toks)
 				if len(toks) != n || !known || !ref.IndicesValid(idx) {
@@ -302,6 +328,10 @@ func drawOp(rt *rapid.T, p *opPool, single bool, allowSeed bool) op {
 			if rapid.IntRange(0, 2).Draw(rt, "os-error") == 0 {
 				o.SourceErr = rapid.SampledFrom(append([]string{"EAGAIN", "timeout", "custom"}, osErrKinds...)).Draw(rt, "source-err")
 			}
+		} else if ref.ValidCount(int(o.N)) {
+			// default source: now and then a run of calls back to back (each output is validated, and
+			// consecutive outputs must not share bytes)
+			o.Repeat = rapid.SampledFrom([]int{0, 0, 0, 17, 33}).Draw(rt, "repeat-default")
 		}
 	case "seed":
 		i := rapid.IntRange(0, len(p.texts)-1).Draw(rt, "text")
